@@ -168,6 +168,28 @@ func c01Scenarios(tier string) []engine.Scenario {
 		Monitor: c01Monitor, Cover: c01Cover, Need: []string{"justified:password", "justified:recover-token", "no-session-change:recover_end"},
 	})
 
+	// S3c: recovery that does not log in: completing it - from whichever browser, logged in as whoever - leaves every session's identity alone
+	out = append(out, engine.Scenario{
+		Name: "S3c-recover-without-login", Cfg: world.Config{Modules: []string{"auth", "recover", "remember", "logout"}, RecoverLoginAfter: false, RecoverTokenDuration: time.Hour}, Depth: depth,
+		Init: func(s *world.Stack) *world.World {
+			w := world.NewWorld("B1", "B2")
+			seedTwo(s, w, flows.Acct{}, flows.Acct{})
+			return w
+		},
+		Actions: func(s *world.Stack, w *world.World) []engine.Action {
+			var a []engine.Action
+			for _, b := range bothBrowsers {
+				a = append(a, loginActs(w, b, []string{U1, U2}, []string{U1, U2}, false, []bool{b == "B1"})...)
+				a = append(a, recoverEndActs(w, b, []string{U1, U2}, P3)...)
+				a = append(a, simple("logout("+b+")", func(s *world.Stack) world.Req { return flows.Logout(s, b) }))
+			}
+			a = append(a, flows.A("recover-start(B2,u1)", func(s *world.Stack, _ *world.World) world.Req { return flows.RecoverStart(s, "B2", U1) }, U1))
+			a = append(a, flows.A("recover-start(B1,u2)", func(s *world.Stack, _ *world.World) world.Req { return flows.RecoverStart(s, "B1", U2) }, U2))
+			return a
+		},
+		Monitor: c01Monitor, Cover: c01Cover, Need: []string{"justified:password", "no-session-change:recover_end"},
+	})
+
 	// S3b: registration without confirm logs the new user in
 	out = append(out, engine.Scenario{
 		Name: "S3b-register", Cfg: world.Config{Modules: []string{"auth", "register", "logout"}}, Depth: depth,
